@@ -726,6 +726,43 @@ fn snapshot_result(ix: &AccountEventIndexer, from: ExchangeId, assets: &[i64], i
     })
 }
 
+/// a full snapshot whose orders are NOT grouped under their own instrument (a client that attaches
+/// every open order to the first group, or lists an order under a neighbouring market): every order
+/// still names its instrument in its key, and the indexer must translate THAT name. Result: the
+/// groups' indices and, per order in listing order, the index its key was translated to.
+fn snapshot_misgrouped_result(ix: &AccountEventIndexer, from: ExchangeId, ins: &[i64], rotate: usize, via_event: bool) -> Result<Value, String> {
+    let n = ins.len();
+    let snap = UnindexedAccountSnapshot {
+        exchange: from,
+        balances: vec![],
+        instruments: ins.iter().enumerate().map(|(k, l)| InstrumentAccountSnapshot {
+            instrument: ins_exc(*l),
+            // rotate == 0: all orders under the first group; otherwise group k lists the order of instrument k + rotate
+            orders: if rotate == 0 {
+                if k == 0 { ins.iter().enumerate().map(|(j, o)| uorder(from, &ins_exc(*o), j as u64)).collect() } else { vec![] }
+            } else {
+                vec![uorder(from, &ins_exc(ins[(k + rotate) % n]), k as u64)]
+            },
+        }).collect(),
+    };
+    catch(|| {
+        let r = if via_event {
+            ix.account_event(UnindexedAccountEvent { exchange: from, kind: AccountEventKind::Snapshot(snap) })
+                .map(|e| match e.kind { AccountEventKind::Snapshot(s) => s, _ => unreachable!("snapshot stays a snapshot") })
+        } else {
+            ix.snapshot(snap)
+        };
+        match r {
+            Err(_) => json!({"ok": false, "g": [], "o": []}),
+            Ok(AccountSnapshot { exchange, instruments, .. }) => json!({
+                "ok": true,
+                "g": instruments.iter().map(|s| s.instrument.index() as i64 + 1).collect::<Vec<_>>(),
+                "o": instruments.iter().flat_map(|s| s.orders.iter().map(|o| if o.key.exchange == exchange { o.key.instrument.index() as i64 + 1 } else { -2 }).collect::<Vec<_>>()).collect::<Vec<_>>(),
+            }),
+        }
+    })
+}
+
 /// names that differ from `name` only by ASCII case (all upper, all lower, one letter flipped),
 /// by a leading / trailing blank, or are a strict prefix / an extension of it - minus those that
 /// happen to be tracked names themselves
@@ -1018,6 +1055,18 @@ pub fn check_c04(scn: &Value, rt: &tokio::runtime::Runtime) -> Report {
                 match snapshot_result(&indexer, *from, &own_a, &own_i, via_event) {
                     Ok(got) => { rep.same(&format!("indexer[{ex}].snapshot(all own names, from {from})"), &format!("snapshot:{c}"), &want, &got); }
                     Err(p) => rep.fail("snapshot:panic", p),
+                }
+            }
+        }
+        // orders listed under another group than their own instrument's: each order is indexed to the instrument ITS key names
+        if own_i.len() >= 2 {
+            for rotate in 0..own_i.len().min(3) {
+                let n = own_i.len();
+                let exp_o: Vec<Value> = if rotate == 0 { exp_i.clone() } else { (0..n).map(|k| exp_i[(k + rotate) % n].clone()).collect() };
+                let want = json!({"ok": true, "g": exp_i, "o": exp_o});
+                match snapshot_misgrouped_result(&indexer, ex, &own_i, rotate, rotate % 2 == 1) {
+                    Ok(got) => { rep.same(&format!("indexer[{ex}].snapshot(orders listed under another instrument's group, rotation {rotate})"), &format!("snapshot_misgrouped:{c}"), &want, &got); }
+                    Err(p) => rep.fail("snapshot_misgrouped:panic", p),
                 }
             }
         }
